@@ -11,10 +11,10 @@ declare -A OWNERS=(
  [b48c2f0]="C06 C10" [43fccf0]="C06" [8ce671f]="C06" [fdf13de]="C06"
  [38fd216]="C08 C16" [1c6599f]="C16" [dbfd504]="C02 C09" [feaf0f8]="C13"
  [c0c10cf]="C17" [26fcf62]="C18" [03ba2c3]="C19" [96bb30a]="C19"
- [3f63fa2]="C17" [f597789]="C18 C07" [f517440]="C11" [229a065]="C06 C08" [9e4047a]="C13"
+ [3f63fa2]="C17" [f597789]="C18 C07" [f517440]="C11" [229a065]="C06 C08" [9e4047a]="C13" [d605501]="C15"
 )
 declare -A PRE=( [feaf0f8]="9e4047a" )
-for c in ${ONLY:-b48c2f0 43fccf0 8ce671f fdf13de 38fd216 1c6599f dbfd504 feaf0f8 c0c10cf 26fcf62 03ba2c3 96bb30a 3f63fa2 f597789 f517440 229a065 9e4047a}; do
+for c in ${ONLY:-b48c2f0 43fccf0 8ce671f fdf13de 38fd216 1c6599f dbfd504 feaf0f8 c0c10cf 26fcf62 03ba2c3 96bb30a 3f63fa2 f597789 f517440 229a065 9e4047a d605501}; do
   git -C /repo checkout -q -- . 
   # a later fix that rewrote the same lines is taken out first (F17 generalised F8's repair)
   for pre in ${PRE[$c]:-}; do git -C /repo diff "$pre~1" "$pre" | git -C /repo apply -R 2>>"$LOG" || echo "REVERT-FAILED (prerequisite $pre of $c)" | tee -a "$LOG"; done
